@@ -130,7 +130,7 @@ VARIANTS = {
             ('C09:aperture', 0.16), ('C09:psfphot', 0.25),
             ('C09:finder', 0.08), ('C09:ellipse', 0.12),
             ('C09:gridded', 0.05)],
-    'C10': [('C10', 0.85), ('C10:fault', 0.15)],
+    'C10': [('C10', 0.75), ('C10:fault', 0.25)],
     'C13': [('C13:image', 0.5), ('C13:gridded', 0.5)],
     'C19': [('C19:radial', 0.5), ('C19:cog', 0.5)],
 }
